@@ -191,17 +191,26 @@ func (w *World) BuildGenesis() types.AppState {
 	st.NextOrderID = 1
 
 	// candidates
+	tie := w.tieGroupAtLimit() // more than 100 candidates: equal total stakes across the pruning boundary (world_ties.go)
 	for i := 0; i < o.Candidates; i++ {
 		owner := w.Addrs[i%len(w.Addrs)]
 		ctrl := w.Addrs[(i+1)%len(w.Addrs)]
 		rew := w.Addrs[(i+2)%len(w.Addrs)]
 		c := types.Candidate{ID: uint64(i + 1), RewardAddress: rew, OwnerAddress: owner, ControlAddress: ctrl, PubKey: w.PubKeys[i], Commission: uint64(r.Intn(101)), Status: 2}
-		if i >= o.ValidatorN && r.Intn(2) == 0 {
+		if i >= o.ValidatorN && r.Intn(w.offlineOneIn()) == 0 {
 			c.Status = 1
 		}
 		total := big.NewInt(0)
 		ns := 1 + r.Intn(4)
 		used := map[string]bool{}
+		if parts, ok := tie[i]; ok { // member of the equal-stake group at rank 100: base-coin stakes only, exact total
+			ns = 0
+			for k, v := range parts {
+				c.Stakes = append(c.Stakes, types.Stake{Owner: w.Addrs[(i+k)%len(w.Addrs)], Coin: 0, Value: v.String(), BipValue: v.String()})
+				volumes[0] = new(big.Int).Add(volOr0(volumes, 0), v)
+				total.Add(total, v)
+			}
+		}
 		for k := 0; k < ns; k++ {
 			ow := w.Addrs[r.Intn(len(w.Addrs))]
 			coin := uint64(0)
@@ -229,6 +238,7 @@ func (w *World) BuildGenesis() types.AppState {
 			st.Validators = append(st.Validators, types.Validator{TotalBipStake: total.String(), PubKey: w.PubKeys[i], AccumReward: "0", AbsentTimes: types.NewBitArray(24)})
 		}
 	}
+	w.tieGroupAtValidatorCut(&st, volumes) // more than 100 candidates: equal total stakes across the validator cut (world_ties.go)
 	// frozen funds (unbonds, moves, locks) and waitlist entries that mature early in the history
 	if !o.NoFrozen {
 		nf := 3 + r.Intn(8)
